@@ -92,10 +92,13 @@ fn pipelines() -> Vec<Pl> {
 pub fn group_rows(rows: &[V], g: &Group) -> V {
     match g {
         Group::Merge => V::Arr(rows.to_vec()),
-        Group::By(_) => {
+        Group::By(key) => {
             let mut groups: Vec<(String, Vec<V>)> = Vec::new();
             for r in rows {
-                if let Some(V::Str(k)) = r.get("k") {
+                // the key expression of the menu reads the row only (`.k`, `(get . "k")`, `.k#0`): the reference
+                // evaluator says what it is for this row
+                let k = crate::refmodel::eval::eval(key, &crate::refmodel::eval::Env::of(r.clone())).ok().flatten();
+                if let Some(V::Str(k)) = &k {
                     match groups.iter_mut().find(|(kk, _)| kk == k) {
                         Some((_, l)) => l.push(r.clone()),
                         None => groups.push((k.clone(), vec![r.clone()])),
